@@ -1714,7 +1714,17 @@ class InTablePhase(Phase):
             assert self.parser.innerHTML
         # Stop parsing
 
+    def currentNodeTakesTableText(self):
+        return self.tree.openElements[-1].name in ("table", "tbody", "tfoot", "thead", "tr")
+
     def processSpaceCharacters(self, token):
+        if not self.currentNodeTakesTableText():
+            # "anything else": the in-body rules with foster parenting
+            fosterParenting = self.tree.insertFromTable
+            self.tree.insertFromTable = True
+            self.parser.phases["inBody"].processSpaceCharacters(token)
+            self.tree.insertFromTable = fosterParenting
+            return
         originalPhase = self.parser.phase
         self.parser.phase = self.parser.phases["inTableText"]
         self.parser.phase.originalPhase = originalPhase
@@ -1722,6 +1732,9 @@ class InTablePhase(Phase):
         self.parser.phase.processSpaceCharacters(token)
 
     def processCharacters(self, token):
+        if not self.currentNodeTakesTableText():
+            self.insertText(token)
+            return
         originalPhase = self.parser.phase
         self.parser.phase = self.parser.phases["inTableText"]
         self.parser.phase.originalPhase = originalPhase
